@@ -13,7 +13,7 @@ def run(job):
         if r.returncode:
             return patch, prop, 'PATCHFAIL', ''
         env = dict(os.environ, VERIF_EVIDENCE_DIR=t + '/ev', VERIF_QUIET='1', VERIF_JOBS='1')
-        r = subprocess.run(['/venv/bin/python', '/verif/sa/check.py', prop, '--repo', t], capture_output=True, text=True, env=env)
+        r = subprocess.run(['/venv/bin/python', os.environ.get('VERIF_SA', '/verif/sa') + '/check.py', prop, '--repo', t], capture_output=True, text=True, env=env)
         out = r.stdout + r.stderr
         kind = 'V' if 'VIOLATION' in out else 'E2' if ('ANALYSIS-ERROR' in out or r.returncode != 0) else 'ok'
         lines = [l for l in out.splitlines() if 'rule=' in l and not l.startswith('OK') or 'ANALYSIS-ERROR' in l]
